@@ -1,0 +1,63 @@
+//! verification hooks for items private to `inscriptions::inscription`
+//! (compiled only with `--cfg ordinals_ord_verif`; add-only, thin wrappers)
+use super::*;
+
+impl Inscription {
+  /// `Inscription::encode_properties`, error mapped to its message
+  pub fn verif_encode_properties(
+    compress: bool,
+    properties: &Properties,
+  ) -> std::result::Result<(Option<Vec<u8>>, Option<Vec<u8>>), String> {
+    Self::encode_properties(compress, properties).map_err(|err| err.to_string())
+  }
+
+  /// `Inscription::compress_properties`, error mapped to its message
+  pub fn verif_compress_properties(
+    cbor: Vec<u8>,
+  ) -> std::result::Result<(Vec<u8>, Option<Vec<u8>>), String> {
+    Self::compress_properties(cbor).map_err(|err| err.to_string())
+  }
+
+  /// `Inscription::properties_cbor` (bounded decompression), owned
+  pub fn verif_properties_cbor(&self) -> Option<Vec<u8>> {
+    self.properties_cbor().map(|cbor| cbor.into_owned())
+  }
+
+  /// `Inscription::properties`
+  pub fn verif_properties(&self) -> Properties {
+    self.properties()
+  }
+
+  /// (MAX_COMPRESSED_PROPERTIES_SIZE, MAX_PROPERTIES_COMPRESSION_RATIO, BROTLI_BUFFER_SIZE, BROTLI)
+  pub fn verif_properties_limits() -> (usize, usize, usize, Vec<u8>) {
+    (
+      MAX_COMPRESSED_PROPERTIES_SIZE,
+      MAX_PROPERTIES_COMPRESSION_RATIO,
+      BROTLI_BUFFER_SIZE,
+      BROTLI.as_bytes().to_vec(),
+    )
+  }
+
+  /// envelope constants: (PROTOCOL_ID, BODY_TAG, MAX_SCRIPT_ELEMENT_SIZE,
+  /// tag bytes in the order ContentType, ContentEncoding, Metaprotocol, Parent, Delegate,
+  /// Pointer, Metadata, Rune, Properties, PropertyEncoding)
+  pub fn verif_envelope_constants() -> (Vec<u8>, Vec<u8>, usize, Vec<u8>) {
+    (
+      envelope::PROTOCOL_ID.to_vec(),
+      envelope::BODY_TAG.to_vec(),
+      MAX_SCRIPT_ELEMENT_SIZE,
+      vec![
+        Tag::ContentType.bytes()[0],
+        Tag::ContentEncoding.bytes()[0],
+        Tag::Metaprotocol.bytes()[0],
+        Tag::Parent.bytes()[0],
+        Tag::Delegate.bytes()[0],
+        Tag::Pointer.bytes()[0],
+        Tag::Metadata.bytes()[0],
+        Tag::Rune.bytes()[0],
+        Tag::Properties.bytes()[0],
+        Tag::PropertyEncoding.bytes()[0],
+      ],
+    )
+  }
+}
